@@ -20,14 +20,30 @@ import (
 // chain these are header submissions; the call returns only when the caller gives it up) —, and whether the node is restarted (crash or clean stop; new Manager and new loops over the image left
 // behind) at that DA-block boundary. After the outage the DA layer accepts everything; block production must resume.
 
-func lazyBody(t *testing.T, c *explore.Ctx, blocks int, sh sharder) (out outcome) {
-	synctest.Test(t, func(t *testing.T) { out = lazyBubble(c, blocks, sh) })
+// lazySpec: lostBlocks = 0 is part 2 (every request is answered); lostBlocks = k > 0 is part 2b, in which 1..k of the
+// DA blocks — chosen up front as a configuration, so that every such history is enumerated exactly once — are DA blocks
+// whose requests get no answer; the other DA blocks are accepting or down (answering with an error) as in part 2.
+type lazySpec struct {
+	blocks     int
+	lostBlocks int
+}
+
+func lazyBody(t *testing.T, c *explore.Ctx, sp lazySpec, sh sharder) (out outcome) {
+	synctest.Test(t, func(t *testing.T) { out = lazyBubble(c, sp, sh) })
 	return
 }
 
-func lazyBubble(c *explore.Ctx, blocks int, sh sharder) (out outcome) {
+func lazyBubble(c *explore.Ctx, sp lazySpec, sh sharder) (out outcome) {
 	t0 := time.Now()
+	blocks := sp.blocks
 	limit := uint64(1 + c.Choose("config", 2))
+	lostAt := map[int]bool{}
+	if sp.lostBlocks > 0 {
+		pl := lostPlacements(blocks+1, sp.lostBlocks) // DA blocks 1..blocks
+		for _, b := range pl[c.Choose("config", len(pl))] {
+			lostAt[b-1] = true
+		}
+	}
 	p := world.Params{InitialHeight: 1, MaxPending: limit, Lazy: true, BlockTime: time.Second, LazyInterval: 2 * time.Second, DABlockTime: daBlock, MempoolTTL: 2, GenesisTime: t0.Add(-time.Hour)}
 	env := world.NewEnv()
 	env.Seq.Next = func(req coreseq.GetNextBatchRequest) world.SeqAnswer {
@@ -147,8 +163,10 @@ func lazyBubble(c *explore.Ctx, blocks int, sh sharder) (out outcome) {
 		if b == blocks {
 			break // the last restart point lies before the closing phase
 		}
-		outage = c.Choose("outage", 2) == 1
-		lost = !outage && c.Choose("lost", 2) == 1
+		outage, lost = false, lostAt[b]
+		if !lost {
+			outage = c.Choose("outage", 2) == 1
+		}
 		if outage {
 			sawOutage = true
 			out.events = append(out.events, fmt.Sprintf("DA block %d: outage", b+1))
